@@ -744,4 +744,95 @@ def getTrainerConfig (env : Env) (a : Kvs) : Except String Cfg :=
         [("train_data_loader", tdl), ("val_data_loader", vdl), ("model_ckpt", ckpt), ("wandb", wb),
          ("optimizer", opt), ("lr_scheduler", lrs), ("early_stopping", es)])
 
+/-! ## `oneof` after construction: attribute assignment, then `which_oneof_attrib_name()` / `which_oneof()`
+
+Assigning an attribute of a `@define` class runs that field's validators only (there are none on
+the union fields) — the `oneof` check lives in `__init__` and in the two query methods. -/
+
+/-- `obj.k = v` on a slotted attrs object: an unknown attribute raises `AttributeError` -/
+def assignAttr (kvs : Kvs) (k : String) (v : Cfg) : Except String Kvs :=
+  if hasKey k kvs then .ok (setKey k v kvs) else .error "AttributeError"
+
+def assignAll : Kvs → List (String × Cfg) → Except String Kvs
+  | kvs, [] => .ok kvs
+  | kvs, (k, v) :: r =>
+    match assignAttr kvs k v with
+    | .error e => .error e
+    | .ok kvs' => assignAll kvs' r
+
+/-- `which_oneof_attrib_name()` (`must_be_set = False` for both decorated classes): the name of the
+one attribute that is set, `none` if none is, `ValueError` if more than one is -/
+def whichOneofName (kvs : Kvs) : Except String (Option String) :=
+  match kvs.filter (fun kv => !kv.2.isNull) with
+  | [] => .ok none
+  | [kv] => .ok (some kv.1)
+  | _ :: _ :: _ => .error "ValueError"
+
+/-- `which_oneof()` -/
+def whichOneof (kvs : Kvs) : Except String Cfg :=
+  match whichOneofName kvs with
+  | .error e => .error e
+  | .ok none => .ok cnull
+  | .ok (some k) => .ok ((lookup k kvs).getD cnull)
+
+/-- construct, assign in order, ask -/
+def oneofAfter (env : Env) (cls : String) (kw : Kvs) (assigns : List (String × Cfg)) (value : Bool) :
+    Except String Cfg :=
+  match mk env cls kw with
+  | .error e => .error e
+  | .ok (.leaf _) => .error "TypeError"
+  | .ok (.node kvs) =>
+    match assignAll kvs assigns with
+    | .error e => .error e
+    | .ok kvs' =>
+      if value then whichOneof kvs'
+      else match whichOneofName kvs' with
+        | .error e => .error e
+        | .ok none => .ok cnull
+        | .ok (some k) => .ok (cstr k)
+
+/-! ## histories of builder calls
+
+The builders are functions of their arguments (and of the class defaults) only.  A *history* is a
+sequence of calls interleaved with in-place mutations of objects handed out earlier; `handed`
+holds the current contents of every object handed out so far, `outputs` what each call returned
+at the time it returned. -/
+
+inductive Call where
+  | aug (v : Variant) (ia ga : Cfg)
+  | backbone (a : Cfg)
+  | head (a : Cfg)
+  | lrs (a : Cfg)
+  | data (v : Variant) (a : Kvs)
+  | model (a : Kvs)
+  | trainer (a : Kvs)
+
+def runCall (env : Env) : Call → Except String Cfg
+  | .aug v ia ga => getAugConfig v env ia ga
+  | .backbone a => backboneStructured env a
+  | .head a => getHeadConfigs env a
+  | .lrs a => lrScheduler env a
+  | .data v a => getDataConfig v env a
+  | .model a => modelStructured env a
+  | .trainer a => getTrainerConfig env a
+
+inductive Step where
+  | call (c : Call)
+  | mutate (i : Nat) (t : Cfg)     -- the caller overwrites (part of) the i-th object it was handed
+
+structure HState where
+  handed : List (Except String Cfg) := []
+  outputs : List (Except String Cfg) := []
+
+def hstep (env : Env) (s : HState) : Step → HState
+  | .call c => let r := runCall env c; { handed := s.handed ++ [r], outputs := s.outputs ++ [r] }
+  | .mutate i t => { s with handed := s.handed.set i (.ok t) }
+
+def runHistory (env : Env) (steps : List Step) : HState := steps.foldl (hstep env) {}
+
+def callsOf : List Step → List Call
+  | [] => []
+  | .call c :: r => c :: callsOf r
+  | .mutate _ _ :: r => callsOf r
+
 end SleapVerif.Config
